@@ -147,10 +147,52 @@ func (h *NtfnsHandler) Start() error {
 		}
 	}
 
+	// the task queue must exist before Start returns: API requests (import,
+	// remove) use it as soon as the wallet is started
+	if err = h.initTaskChan(); err != nil {
+		return err
+	}
+
 	h.quitWg.Add(2)
 	go handle(h)
 	go worker(h)
 	return nil
+}
+
+// initTaskChan creates the worker's task queue and re-queues the imports and
+// removals that were unfinished when the wallet was stopped.
+func (h *NtfnsHandler) initTaskChan() error {
+	return mwdb.View(h.walletMgr.db, func(tx mwdb.ReadTransaction) error {
+		wss, err := h.walletMgr.syncStore.GetAllWalletStatus(tx)
+		if err != nil {
+			return err
+		}
+		h.taskChan = NewWalletTaskChan(len(wss))
+		for _, ws := range wss {
+			logging.CPrint(logging.DEBUG, "wallet status",
+				logging.LogFormat{
+					"syncedheight": ws.SyncedHeight,
+					"walletId":     ws.WalletID,
+					"ready":        ws.Ready(),
+					"removed":      ws.IsRemoved(),
+					"best":         h.bestBlock.Height,
+				})
+			// remove
+			if ws.IsRemoved() {
+				h.taskChan.PushRemove(ws.WalletID)
+				logging.CPrint(logging.INFO, "restart removing", logging.LogFormat{"walletId": ws.WalletID})
+				continue
+			}
+
+			// import
+			if !ws.Ready() {
+				h.taskChan.PushImport(ws.WalletID)
+				logging.CPrint(logging.INFO, "restart importing", logging.LogFormat{"walletId": ws.WalletID})
+			}
+		}
+		return nil
+
+	})
 }
 
 func (h *NtfnsHandler) Stop() {
@@ -755,37 +797,6 @@ func (h *NtfnsHandler) reorg(dbtx mwdb.DBTransaction, currentBest txmgr.BlockMet
 func worker(h *NtfnsHandler) {
 	defer Recover()
 	defer h.quitWg.Done()
-
-	mwdb.View(h.walletMgr.db, func(tx mwdb.ReadTransaction) error {
-		wss, err := h.walletMgr.syncStore.GetAllWalletStatus(tx)
-		if err != nil {
-			return err
-		}
-		h.taskChan = NewWalletTaskChan(len(wss))
-		for _, ws := range wss {
-			logging.CPrint(logging.DEBUG, "wallet status",
-				logging.LogFormat{
-					"syncedheight": ws.SyncedHeight,
-					"walletId":     ws.WalletID,
-					"ready":        ws.Ready(),
-					"removed":      ws.IsRemoved(),
-					"best":         h.bestBlock.Height,
-				})
-			// remove
-			if ws.IsRemoved() {
-				h.taskChan.PushRemove(ws.WalletID)
-				logging.CPrint(logging.INFO, "restart removing", logging.LogFormat{"walletId": ws.WalletID})
-				continue
-			}
-
-			// import
-			if !ws.Ready() {
-				h.taskChan.PushImport(ws.WalletID)
-				logging.CPrint(logging.INFO, "restart importing", logging.LogFormat{"walletId": ws.WalletID})
-			}
-		}
-		return nil
-	})
 
 	for {
 		verifPoint("worker.loop")
